@@ -252,6 +252,20 @@ fn run_eq(line: &str) -> String {
                     }
                 }
             }
+            // templates over PREFIXES OF ONE parts array (same start address, different lengths — what slicing a
+            // static parts table gives): equality is by meaning, never by where the parts live
+            for (i, t) in tpls.iter().enumerate() {
+                let parts: Vec<Part> = t.parts().map(|p| p.by_ref()).collect();
+                let full = Template::new_ref(&parts);
+                for k in 0..parts.len() {
+                    let pre = Template::new_ref(&parts[..k]);
+                    let want = meaning(&pre) == meaning(&full);
+                    let got = (hcommon::catch(|| pre == full), hcommon::catch(|| full == pre));
+                    if got != (Some(want), Some(want)) {
+                        fail.push(format!("eq-differs-from-meaning-on-aliased-prefix({},{})", i, k));
+                    }
+                }
+            }
             if fail.is_empty() {
                 out
             } else {
